@@ -26,7 +26,7 @@ META = {
             "exhaustive within depth 3 in the quick tier and depth 4 in the thorough tier.",
 }
 
-LEVELS = [("let", ("x",)), ("let", ("y",)), ("let", ("x", "y")), ("fn",), ("defn",), ("later", "x"), ("lfor", "x")]
+LEVELS = [("let", ("x",)), ("let", ("y",)), ("let", ("x", "y")), ("fn",), ("defn",), ("later", "x"), ("lfor", "x"), ("let2", "x"), ("lforx", "x")]
 PRE = [(), (SETV("x"),), (LOG("x"),)]
 POST = [(LOG("x"),), (LOG("x"), LOG("y")), (SETV("x"), LOG("x"))]
 INNER = [(LOG("x"), LOG("y")), (SETV("x"), LOG("x")), (LOG("x"), SETV("y"), LOG("y")), (SETV("y"), SETV("x"), LOG("x"), LOG("y"))]
@@ -74,6 +74,15 @@ def scope_contracts(chk):
                "structural", "proved")
         chk.ob("contract/ScopeLet.add issues reserved names built from mangle(name) by get_anon_var",
                str(new_outer).startswith("_hy_let_a_b_") and str(new_inner).startswith("_hy_let_a_b_") and new_outer != new_inner, "structural", "proved")
+        again = comp.scope.create(hs.ScopeLet)
+        with again:
+            first = again.add(sx.S("v"))
+            ref1 = again.access(ast.Name(id="v", ctx=ast.Load()))
+            second = again.add(sx.S("v"))
+            ref2 = again.access(ast.Name(id="v", ctx=ast.Load()))
+            chk.ob("contract/binding the same name twice in one let issues two distinct variables; references made between the two "
+                   "keep the first", str(first) != str(second) and ref1.id == str(first) and ref2.id == str(second), "structural", "proved",
+                   detail=f"{first} {second} {ref1.id} {ref2.id}")
         # ScopeFn.__exit__ forwards exactly the names seen but not defined locally
         let = comp.scope.create(hs.ScopeLet)
         with let:
@@ -121,9 +130,10 @@ def run(chk):
                 if t[0] in ("let", "fn", "defn", "def", "class"):
                     sub = t[2] if t[0] in ("let", "defn", "def", "class") else t[1]
                     tag = t[0] + ("[" + ",".join(n for n, _ in t[1]) + "]" if t[0] == "let" else "")
+                    tag = tag.replace("let[x,c0,x]", "let[x,closure,x]").replace("let[x,c1,x]", "let[x,closure,x]").replace("let[x,c2,x]", "let[x,closure,x]").replace("let[x,c3,x]", "let[x,closure,x]")
                     out.append(tag + ">" + shape(sub))
-                elif t[0] == "lfor":
-                    out.append("lfor")
+                elif t[0] in ("lfor", "lforx"):
+                    out.append(t[0])
             return "+".join(out)
         key = shape(prog)
         st = per.setdefault(key, [0, None])
